@@ -485,11 +485,14 @@ class PLSSParser:
         Give each subordinate Tract object the warning and error flags
         of this PLSSParser.
         """
+        # The description's flags go before the flags that the Tract
+        # generated when parsing itself, which is also where they stay
+        # if the Tract is parsed again.
         for tract in self.tracts:
-            tract.w_flags.extend(self.w_flags)
-            tract.w_flag_lines.extend(self.w_flag_lines)
-            tract.e_flags.extend(self.e_flags)
-            tract.e_flag_lines.extend(self.e_flag_lines)
+            tract.w_flags[:0] = self.w_flags
+            tract.w_flag_lines[:0] = self.w_flag_lines
+            tract.e_flags[:0] = self.e_flags
+            tract.e_flag_lines[:0] = self.e_flag_lines
         return None
 
     def check_error_tracts(self):
